@@ -140,6 +140,7 @@ func (t *c11Task) String() string {
 }
 
 type c11Scenario struct {
+	extreme int // 0 ordinary, 1/2/3 boundary-biased eviction-priority / spec.priority / priority label
 	plugin  string
 	pods    []*c11Pod
 	tasks   []*c11Task
@@ -507,8 +508,17 @@ func c11Check(sc *c11Scenario, ex *c11Exec, returned ReleaseList, newly bool) *c
 var c11MemFeatures = []string{"BEMemoryEvict", "MemoryAllocatableEvict", "MemoryEvict"}
 var c11CPUFeatures = []string{"BECPUEvict", "CPUAllocatableEvict", "CPUEvict"}
 
-func c11GenPods(r *kit.Rand, n int) []*c11Pod {
+// Legal extremes of the ordering keys (eviction-priority annotation and priority label are parsed as int32;
+// spec.priority: any negative int32, user classes up to 1000000000, system-node-critical 2000001000).
+var c11ExtremeI32 = []int32{-1 << 31, -1<<31 + 1, -1, 0, 1, 1<<31 - 2, 1<<31 - 1}
+var c11ExtremePrio = []int32{-1 << 31, -1 << 31, -1<<31 + 1, -1, 1, 1, 1000000000, 2000001000}
+
+// c11GenPods: mode 0 ordinary; 1/2/3 = boundary-biased eviction-priority / spec.priority / priority label for the
+// harness-side sorted candidate lists (KillAndEvictPods itself does not sort; this only varies the list orders
+// and the keys carried by the PodEvictInfo objects).
+func c11GenPods(r *kit.Rand, n int, mode int) []*c11Pod {
 	pods := make([]*c11Pod, n)
+	sharedPrio := kit.Pick(r, []int32{5500, 100, -1 << 31, 1})
 	for i := range pods {
 		p := &c11Pod{idx: i, name: fmt.Sprintf("p%d", i), optOut: map[string]bool{}}
 		var lo, hi int32
@@ -527,8 +537,23 @@ func c11GenPods(r *kit.Rand, n int) []*c11Pod {
 		if r.Pct(30) {
 			p.evPrio = kit.Pick(r, []int32{-100, -1, 1, 5, 100})
 		}
+		switch mode {
+		case 1:
+			if r.Pct(70) {
+				p.evPrio = kit.Pick(r, c11ExtremeI32)
+			}
+		case 2:
+			p.evPrio = 0
+			if r.Pct(65) {
+				p.prio = kit.Pick(r, c11ExtremePrio)
+			}
+		case 3:
+			p.evPrio, p.prio = 0, sharedPrio
+		}
 		p.labelPrio = int64(p.prio)
-		if r.Pct(20) {
+		if mode == 3 && r.Pct(70) {
+			p.labelPrio = int64(kit.Pick(r, c11ExtremeI32))
+		} else if r.Pct(20) {
 			p.labelPrio = int64(r.Intn(10000))
 		}
 		p.hasMetric = r.Pct(85)
@@ -639,7 +664,10 @@ func c11PickTarget(r *kit.Rand, rels []int64, allowZero bool) int64 {
 
 func c11GenScenario(r *kit.Rand, n int, maxTasks int) *c11Scenario {
 	sc := &c11Scenario{pending: map[int]bool{}, apiMode: r.Bool()}
-	sc.pods = c11GenPods(r, n)
+	if r.Pct(15) {
+		sc.extreme = 1 + r.Intn(3)
+	}
+	sc.pods = c11GenPods(r, n, sc.extreme)
 	features := c11MemFeatures
 	sc.plugin = "mem"
 	if r.Bool() {
@@ -716,7 +744,7 @@ func c11GenScenario(r *kit.Rand, n int, maxTasks int) *c11Scenario {
 }
 
 func c11LogScenario(c *kit.Case, sc *c11Scenario) {
-	c.Op("plugin=%s apiMode=%v", sc.plugin, sc.apiMode)
+	c.Op("plugin=%s apiMode=%v boundaryBiasedKey=%d", sc.plugin, sc.apiMode, sc.extreme)
 	for _, p := range sc.pods {
 		c.Op("pod %s pending=%v", p, sc.pending[p.idx])
 	}
@@ -807,6 +835,9 @@ func TestVerifC11Tasks(t *testing.T) {
 				c.Count("task_"+t.feature, 1)
 			}
 			c.Count("tasks_total", len(sc.tasks))
+			if sc.extreme > 0 {
+				c.Count("util_cases_boundary_biased_keys", 1)
+			}
 			c.Count(fmt.Sprintf("cases_with_%d_tasks", len(sc.tasks)), 1)
 			if out.attempts > 0 && (out.failures > 0 || out.pendingSeen > 0 || out.metTasks > 0) {
 				c.NonTrivial()
